@@ -33,6 +33,8 @@ THEOREMS = [
     "VK.Gen.C14_runSlatePL",
     "VK.Gen.C14_runSlateBT",
     "VK.Gen.C14_run_all_bloc_kinds",
+    "VK.Gen.C14_runSimplex",
+    "VK.Gen.C14_run_simplex",
 ]
 RULE = ("cases = random parameter sets for all 16 generator paths (ImpartialCulture, ImpartialAnonymousCulture, BallotSimplex "
         "from point, name/short-name PlackettLuce, name BradleyTerry exact + MCMC, slate BradleyTerry exact + MCMC, "
